@@ -148,7 +148,9 @@ def r2_one_per_node(chk, cf):
     ok = len(apps) == 1 and len(conn) == 1
     if ok:
         g = [g for g in walk_no_nested(l) if isinstance(g, ast.If) and any(x is conn[0] for b in g.body for x in ast.walk(b)) and any(x is apps[0] for b in g.orelse for x in ast.walk(b))]
-        ok = len(g) == 1 and norm(g[0].test) == "center is not None" and not any(isinstance(x, (ast.Continue, ast.Break)) for x in walk_no_nested(l))
+        t_ = g[0].test if len(g) == 1 else None
+        ok = t_ is not None and isinstance(t_, ast.Compare) and isinstance(t_.left, ast.Name) and len(t_.ops) == 1 and isinstance(t_.ops[0], ast.IsNot) and norm(t_.comparators[0]) == "None" \
+            and not any(isinstance(x, (ast.Continue, ast.Break)) for x in walk_no_nested(l))
         pb = [c for c in walk_no_nested(l) if isinstance(c, ast.Call) and norm(c.func) == "self._parse_bond"]
         ok = ok and len(pb) == 1 and norm(pb[0].args[0]) == norm(l.target)
     chk.decide(ok, "C13.R2", f"{pf.key}:one-bond-per-drawn-bond", pf.where(l), "each drawn bond is parsed once and appended once (or expanded around a hapto centre)",
@@ -302,7 +304,9 @@ def r3_wedge_table(chk, cf):
                    f"{beg} -> {a[:3]} but {end} -> {b[:3]}: the End variant must be the Begin variant with the two atoms exchanged")
     # the indices are those of the bond's own atoms, begin atom first
     un = [s for s in walk_no_nested(pf.node) if isinstance(s, ast.Assign) and isinstance(s.targets[0], ast.Tuple) and "get_atom_indices" in norm(s.value)]
-    ok = len(un) == 1 and norm(un[0].value) == "result.get_atom_indices(b.a1, b.a2)" and [norm(t) for t in un[0].targets[0].elts] == [rows["WedgeBegin"][0], rows["WedgeBegin"][1]]
+    import re as _re
+
+    ok = len(un) == 1 and bool(_re.fullmatch(r"result\.get_atom_indices\((\w+)\.a1, \1\.a2\)", norm(un[0].value))) and [norm(t) for t in un[0].targets[0].elts] == [rows["WedgeBegin"][0], rows["WedgeBegin"][1]]
     chk.decide(ok, "C13.R3", f"{pf.key}:indices-of-the-bonds-own-atoms", pf.where(un[0] if un else m), "i1, i2 = indices of (b.a1, b.a2); WedgeBegin uses (i1, i2)",
                "the indices handed to _cdxml_3dify_ are not those of the bond's begin / end atoms in that order")
 
